@@ -974,6 +974,8 @@ def r17_14_offset_field_getters(ctx: Ctx) -> RuleResult:
     if set(found) != set(want):
         raise AnalysisError(f"_OffsetPatternParser: the H / m / s padded fields and their getters were not all found ({sorted(found)})")
     samples = (0, 1, -1, 15, -15, 59, -59, 60, -60, 61, -61, 1815, -1815, 3599, -3599, 3600, -3600, 19815, -19815, 19845, -19845, 64799, -64799, 64800, -64800)
+    if ctx.tier != "quick":  # thorough: EVERY offset of the type's range, second by second
+        samples = tuple(range(-64800, 64801))
     for ch, gname in sorted(found.items()):
         g = next((x for x in c.all_defs if x.name in (gname, mangle(c.name, gname)) or mangle(c.name, x.name) == mangle(c.name, gname)), None)
         if g is None or isinstance(g.node, ast.Lambda):
